@@ -7,13 +7,17 @@ package storage
 // artifact's last offset) is a scheduling point; after each publication and at quiescence the
 // published value is compared with what complete (segment + index) S3 objects hold.
 func VsymC05_Watermark() {
+	// shapes as in C01: {producers, upload failures (0 = any number), preemption bound, S3-calls-only, delay bound}
+	shape := [][5]int{{2, 1, 2, 0, 0}, {3, 0, 0, 1, 2}, {3, 1, 0, 1, 2}, {2, 2, 3, 0, 0}, {2, 0, 0, 0, 4}, {3, 1, 0, 0, 3}}[vsym_Param("shape")]
 	w := vsymNewConcWorld(true)
 	w.publishEvents = true
-	w.s3.budget = vsym_Param("faults")
-	vsym_PreemptionBound(vsym_Param("preempt"))
+	w.s3EventsOnly = shape[3] == 1
+	w.s3.budget = shape[1]
+	vsym_PreemptionBound(shape[2])
+	vsym_DelayBound(shape[4])
 	vsym_ExploreEvents()
 	w.checkAtPublish = true
-	for i := 0; i < vsym_Param("producers"); i++ {
+	for i := 0; i < shape[0]; i++ {
 		vsym_Go(w.producer(i, "C05"))
 	}
 	vsym_Join()
